@@ -169,6 +169,9 @@ def atom_vars(a):
             out |= x.free_vars()
     elif k == "ite":
         out |= a[2].free_vars() | a[3].free_vars()
+        if isinstance(a[1], str) and "«" in a[1]:     # index entities inside the condition key
+            import re as _re
+            out |= set(_re.findall("«([^»]*)»", a[1]))
         for x in a[4:]:
             if isinstance(x, str):
                 out.add(x)
